@@ -292,6 +292,8 @@ type Search struct {
 	GoalBlock func(b, pred *ssa.BasicBlock) bool
 	// GoalReturn: evaluated at a Return. True = violation.
 	GoalReturn func(r *ssa.Return, pred *ssa.BasicBlock) bool
+	// GoalInstr: evaluated at every instruction reached before a Cut. True = violation.
+	GoalInstr func(in ssa.Instruction) bool
 }
 
 type st struct{ b, pred *ssa.BasicBlock }
@@ -321,6 +323,9 @@ func (s *Search) Run(start *ssa.BasicBlock, startIdx int, pred *ssa.BasicBlock) 
 			if s.Cut != nil && s.Cut(in) {
 				cut = true
 				break
+			}
+			if s.GoalInstr != nil && s.GoalInstr(in) {
+				return s.witness(parent, cur, s0)
 			}
 			if r, ok := in.(*ssa.Return); ok {
 				if s.GoalReturn != nil && s.GoalReturn(r, cur.pred) {
